@@ -91,6 +91,16 @@ Definition m_map_nth {I} (k : nat) (f : I -> I) : machine I I :=
 Definition m_map_alt {I} (f : I -> I) : machine I I :=
   m_imap (fun i x => if Nat.odd i then f x else x).
 
+(* vy_zip(finite list, source) / vy_zip(source, finite list): after the finite operand ends
+   every output is padded with 0 and still needs exactly one pull of the source;
+   the dyadic vectorised operations pair their operands through vy_zip *)
+Definition m_zip_fin_l {I J} (pad : J) (fin : list J) : machine I (J * I) :=
+  m_imap (fun i x => (nth i fin pad, x)).
+Definition m_zip_fin_r {I J} (pad : J) (fin : list J) : machine I (I * J) :=
+  m_imap (fun i x => (x, nth i fin pad)).
+Definition m_vec_fin (op : Z -> Z -> Z) (fin : list Z) : machine Z Z :=
+  m_imap (fun i x => op (nth i fin 0%Z) x).
+
 (* at most one output per pulled item: `for i, x in enumerate(lhs): if ...: yield ...` *)
 Definition pick1 {O} (o : option O) : list O := match o with Some y => [y] | None => [] end.
 Definition m_pick {I O} (g : nat -> I -> option O) : machine I O :=
@@ -174,6 +184,25 @@ Definition m_interleave_fin {I} (fin : list I) : machine I I :=
   @Machine I I (list I) fin [] always
     (fun r x => match r with f :: r' => (r', [x; f]) | [] => ([], [x]) end).
 
+(* first occurrences, in order of appearance *)
+Fixpoint uniq_rev {I} (eqb : I -> I -> bool) (r : list I) : list I :=
+  match r with
+  | [] => []
+  | x :: r' => let u := uniq_rev eqb r' in if existsb (eqb x) u then u else u ++ [x]
+  end.
+Definition uniq {I} (eqb : I -> I -> bool) (l : list I) : list I := uniq_rev eqb (rev l).
+
+(* interleave(finite list, source): the finite list's first item comes for free, then
+   source item, finite item, ...; `yield from rhs_iter` once the finite list ran out *)
+Definition m_interleave_fin_r {I} (fin : list I) : machine I I :=
+  @Machine I I (list I) (tl fin) (firstn 1 fin) always
+    (fun r x => match r with f :: r' => (r', [x; f]) | [] => ([], [x]) end).
+
+(* union(finite list, source): the finite list's distinct items first, then the unseen source items *)
+Definition m_union_fin_l {I} (eqb : I -> I -> bool) (fin : list I) : machine I I :=
+  @Machine I I (list I) (uniq eqb fin) (uniq eqb fin) always
+    (fun seen x => if existsb (eqb x) seen then (seen, []) else (seen ++ [x], [x])).
+
 (* group_consecutive on a lazy list: prev = lhs[0] is pulled by the first resumption;
    `if not lhs` in the constructor pulls one item *)
 Definition m_group {I} (eqb : I -> I -> bool) : machine I (list I) :=
@@ -196,14 +225,6 @@ Definition picks {I O} (g : nat -> I -> option O) (src : nat -> I) (k : nat) : l
   flat_map (fun i => pick1 (g i (src i))) (seq 0 k).
 Definition multis {I O} (g : nat -> I -> list O) (src : nat -> I) (k : nat) : list O :=
   flat_map (fun i => g i (src i)) (seq 0 k).
-(* first occurrences, in order of appearance *)
-Fixpoint uniq_rev {I} (eqb : I -> I -> bool) (r : list I) : list I :=
-  match r with
-  | [] => []
-  | x :: r' => let u := uniq_rev eqb r' in if existsb (eqb x) u then u else u ++ [x]
-  end.
-Definition uniq {I} (eqb : I -> I -> bool) (l : list I) : list I := uniq_rev eqb (rev l).
-
 (* ---- bounds ------------------------------------------------------------------ *)
 (* f n pulled items always suffice for n outputs, whatever the items are *)
 Definition bounded {I O} (m : machine I O) (f : nat -> nat) : Prop :=
@@ -262,7 +283,10 @@ Inductive stage : Type :=
 | SSlice (o : nat) | SStride (a s : nat) | SHeadRemove
 | SAddScalar (c : Z) | SAddList (o : Z)
 | SGroup | SInsertAt (p : nat) (v : Z) | SRemoveAt (p : nat) | STruthy
-| SMapNth (k : nat) | SMapAlt.
+| SMapNth (k : nat) | SMapAlt
+| SZipFinL (l : list Z) | SZipFinR (l : list Z)
+| SAddFin (l : list Z) | SMulFin (l : list Z) | SSubFinL (l : list Z) | SSubFinR (l : list Z)
+| SInterleaveFinR (l : list Z) | SUnionFinL (l : list Z) | SFilterNotIn (l : list Z).
 
 Definition vneg (v : val) : val := VZ (- zof v).
 
@@ -299,6 +323,15 @@ Definition stage_machine (s : stage) : machine val val :=
   | STruthy => comp (m_map zof) (comp m_truthy (m_map vnat))
   | SMapNth k => m_map_nth k vneg
   | SMapAlt => m_map_alt vneg
+  | SZipFinL l => m_imap (fun i x => vpair (VZ (nth i l 0%Z)) x)
+  | SZipFinR l => m_imap (fun i x => vpair x (VZ (nth i l 0%Z)))
+  | SAddFin l => m_imap (fun i x => VZ (nth i l 0%Z + zof x))
+  | SMulFin l => m_imap (fun i x => VZ (nth i l 0%Z * zof x))
+  | SSubFinL l => m_imap (fun i x => VZ (nth i l 0%Z - zof x))
+  | SSubFinR l => m_imap (fun i x => VZ (zof x - nth i l 0%Z))
+  | SInterleaveFinR l => m_interleave_fin_r (map VZ l)
+  | SUnionFinL l => m_union_fin_l val_eqb (map VZ l)
+  | SFilterNotIn l => m_filter (fun v => negb (existsb (val_eqb v) (map VZ l)))
   end.
 
 (* m, then each machine of rest in turn, every one pulling from its predecessor *)
